@@ -30,6 +30,7 @@ class P(Prop):
         (M, "TV.C10.track_preserved", "mode 1 (any mode outside {3,4,5}): same observations, order, positions, timestamps; only obs_noise / hmm_inference / hmm_cost are created"),
         (M, "TV.C10.timestamps_preserved", "every mode: count and timestamps unchanged"),
         (M, "TV.C10.decoder_in_range_total", "a decoder answering in-range indices never makes the backward step fail"),
+        (M, "TV.C10.viterbi_decoder_total", "with the Viterbi model of C09 over any cost tables, the decoded indices are in range (candidate lists are never empty), so the backward step never fails"),
     ]
     partial = []
     open_statements = ["the spatial index (candidate edge numbers) and the HMM decoder (indices) are parameters: completeness of the candidates (no edge within the radius is missed) "
